@@ -239,6 +239,11 @@ def sec_group1(ctx, rng, case):
     inv = g ** -1
     ctx.check(L.phase_equal(cirq.unitary(inv), U.conj().T, 1e-8), "single-qubit-group", "C13:single-inverse", "", **wit)
     ctx.check(L.phase_equal(cirq.unitary(g ** 2), U @ U, 1e-8), "single-qubit-group", "C13:single-square", "", **wit)
+    # every integer power (binary exponentiation: even exponents that are not powers of two use a different code path)
+    for e in range(-26, 27):
+        want_e = np.linalg.matrix_power(U if e >= 0 else U.conj().T, abs(e))
+        ctx.check(L.phase_equal(cirq.unitary(g ** e), want_e, 1e-8), "single-qubit-group", "C13:single-integer-power",
+                  "g**%d is not the %d-th matrix power" % (e, e), exponent=e, **wit)
     # decompose_gate: product in order equals cirq.unitary(g) INCLUDING global phase (documented)
     M = np.eye(2, dtype=complex)
     for h in g.decompose_gate():
@@ -303,6 +308,10 @@ def sec_group2(ctx, rng, case):
     ctx.check(L.phase_equal(cirq.unitary(inv), U.conj().T, 1e-7), "two-qubit-group", "C13:clifford-inverse", "", **wit)
     ctx.check(L.phase_equal(cirq.unitary(g ** 2), U @ U, 1e-7), "two-qubit-group", "C13:clifford-square", "", **wit)
     ctx.check(L.phase_equal(cirq.unitary(g ** 3), U @ U @ U, 1e-7), "two-qubit-group", "C13:clifford-cube", "", **wit)
+    for e in [int(x) for x in rng.choice(np.arange(-20, 21), size=4, replace=False)]:
+        want_e = np.linalg.matrix_power(U if e >= 0 else U.conj().T, abs(e))
+        ctx.check(L.phase_equal(cirq.unitary(g ** e), want_e, 1e-7), "two-qubit-group", "C13:clifford-integer-power",
+                  "g**%d is not the %d-th matrix power" % (e, e), exponent=e, **wit)
     t = g.clifford_tableau
     ctx.check(cirq.CliffordGate.from_clifford_tableau(t) == g, "two-qubit-group", "C13:tableau-roundtrip", "", **wit)
     ti = t.inverse()
